@@ -93,6 +93,13 @@ func (b *bar) Done() {
 	}
 	if ib.IsRunning() {
 		ib.SetTotal(-1, true)
+		if ib.IsRunning() {
+			// SetTotal can't complete a bar that was created with a known
+			// total: such a bar only completes by itself once current reaches
+			// total, which a periodically updated bar might never do.
+			// Waiting for it would block forever.
+			ib.Abort(true)
+		}
 		ib.Wait()
 	}
 }
